@@ -38,7 +38,7 @@ def run(run, tier, seed, kinds=KINDS, pid=PID):
     # connections that are closed and opened again on the same identifier: mentions resolve in the new, empty table
     from . import c04
     res = explore.bfs(c04.expand_sink, 5 if tier == 'quick' else 7, seed=seed, bound={'sink_depth': 5 if tier == 'quick' else 7})
-    res.violations = [v for v in res.violations if v.kind.split('.')[0] == 'sink' and pid == 'C02']
+    res.violations = [v for v in res.violations if v.kind.split('.')[0] == 'sink']      # attribution (C02) and lifetimes (C03) alike
     run.add_part('reopened_identifiers', res)
     # deep chain: generation letters past z / zz
     variant = hc.VARIANTS['client']
